@@ -36,7 +36,7 @@ class WorldC16(World):
               'solver-raise-fired', 'early-stop-oracle-sensitive', 'natural-nonconvergence', 'span>=30', 'rank-deficient-network',
               'trace-species-present', 'loaded-from-thermdat', 'load-read-fault', 'high-pressure', 'low-pressure',
               'twelve-species', 'four-elements', 'optimality-judged', 'deep-trace-not-judged', 'solver-exit-mode-fired',
-              'thermdat-rewritten-in-place')
+              'thermdat-rewritten-in-place', 'corrupt-file-refused', 'solve-with-nan-thermo')
     REAL = ('pmutt.equilibrium.Equilibrium (constructor, get_net_comp, from_thermdat)', 'scipy.optimize.minimize(SLSQP)',
             'pmutt.io.thermdat reader/writer', 'pmutt.empirical.nasa.Nasa')
     SIMULATED = ('solver outcome policy at the pmutt.equilibrium._equilibrium.minimize seam (pass, iteration cap, early stop, raise, give up with SLSQP exit mode 3-9 part-way)',
@@ -160,7 +160,10 @@ class WorldC16(World):
             rng.shuffle(order)
             return {'c': c, 'op': 'build', 'fault': fault,
                     'args': {'id': 0, 'species': species, 'feed': feed, 'order': order, 'via': sw['via'],
-                             'rewrite': sw['via'] == 'thermdat' and rng.random() < 0.5}}
+                             'rewrite': sw['via'] == 'thermdat' and rng.random() < 0.5,
+                             'corrupt': ({'kind': rng.choice(['nan', 'byte']), 'sp': rng.randrange(len(species)),
+                                          'col': rng.randrange(8)}
+                                         if sw['via'] == 'thermdat' and fault is None and rng.random() < 0.15 else None)}}
         ids = sorted(self.eq)
         k = rng.choice(ids)
         m = self.meta[k]
@@ -211,6 +214,8 @@ class WorldC16(World):
                 self.th.write_thermdat(old, filename=fs.path('net%d.dat' % a['id']))
                 self.eqm.Equilibrium.from_thermdat(fs.path('net%d.dat' % a['id']), network)
             self.th.write_thermdat(objs, filename=fs.path('net%d.dat' % a['id']))
+            if a.get('corrupt'):
+                self._corrupt(fs.path('net%d.dat' % a['id']), a['corrupt'])
             fs.install()
             fs.arm(fault)
             try:
@@ -227,6 +232,25 @@ class WorldC16(World):
         else:
             model = objs
         return self.eqm.Equilibrium(model=model, network=network)
+
+    def _corrupt(self, path, c):
+        """Stored bytes changed between the write and the load: a coefficient field that now reads NaN, or a byte in the
+        date field that is not valid UTF-8 (a file touched by a tool under another code page)."""
+        with open(path, 'rb') as f:
+            lines = f.read().split(b'\n')
+        first = [i for i, ln in enumerate(lines) if len(ln) >= 80 and ln[79:80] == b'1']
+        if not first:
+            return
+        i = first[c['sp'] % len(first)]
+        if c['kind'] == 'nan':
+            lines[i + 1] = b'            NaN' + lines[i + 1][15:]          # a_high[0] of that species
+            self.ctx.faults['stored_field_nan'] += 1
+        else:
+            pos = 16 + c.get('col', 0) % 8                                    # inside the date field (columns 17-24)
+            lines[i] = lines[i][:pos] + b'\xe9' + lines[i][pos + 1:]
+            self.ctx.faults['stored_byte_not_utf8'] += 1
+        with open(path, 'wb') as f:
+            f.write(b'\n'.join(lines))
 
     def _matrix(self, m):
         np = self.np
@@ -253,9 +277,16 @@ class WorldC16(World):
             if infeed != present:
                 raise Skip()
             fault = op.get('fault')
+            corrupt = a.get('corrupt') if a['via'] == 'thermdat' else None
             try:
                 eq = self.real(self._construct, a, a['species'], a['feed'], a['order'], fault,
-                               _allowed=(OSError,), _what='Equilibrium construction')
+                               _allowed=(OSError,) + ((ValueError, KeyError) if corrupt else ()),
+                               _what='Equilibrium construction')
+            except (ValueError, KeyError) as e:
+                if isinstance(e, OSError):
+                    raise
+                ctx.probe('corrupt-file-refused')
+                return 'corrupt file refused (%s)' % type(e).__name__
             except OSError as e:
                 used = self._fault_used
                 if used and used.get('fired'):
@@ -267,7 +298,8 @@ class WorldC16(World):
                 raise Violation('fault-must-be-signalled', 'from_thermdat returned an object although %s fired' % used['kind'])
             self.eq[a['id']] = eq
             self.meta[a['id']] = {'species': a['species'], 'feed': a['feed'], 'order': list(a['order']), 'solves': 0,
-                                  'failed_last': False, 'results': {}, 'via': a['via']}
+                                  'failed_last': False, 'results': {}, 'via': a['via'],
+                                  'nan_above_1000K': bool(corrupt and corrupt['kind'] == 'nan')}
             m = self.meta[a['id']]
             ordered, els, A, b = self._matrix(m)
             if np.linalg.matrix_rank(A) < min(A.shape):
@@ -349,6 +381,15 @@ class WorldC16(World):
         kind = policy['kind'] if policy else None
         st, val, ws, results = self._run(eq, T, P, policy)
         m['solves'] += 1
+        if m.get('nan_above_1000K') and T >= 1000.0:
+            # one species has no Gibbs energy at this temperature (its stored coefficient reads NaN): there is no
+            # equilibrium to return, so anything but a signal is a silent wrong answer
+            ctx.probe('solve-with-nan-thermo')
+            if st == 'ok' and not [w for w in ws if not any(nz in w[1] for nz in NOISE)] and T > 1000.0:
+                raise Violation('failure-signalled', 'a species\' Gibbs energy is NaN at T=%r (corrupted coefficient field), yet '
+                                'get_net_comp returned %r with no warning and no exception' % (T, list(val.moles)[:6]))
+            m['failed_last'] = True
+            return 'nan thermo signalled'
         told_failure = any(r == 'raised' or not bool(getattr(r, 'success', False)) for r in results)
         if kind == 'raise':
             ctx.probe('solver-raise-fired')
